@@ -134,7 +134,8 @@ def eq (a x : List Nat) : Bool := evalCmpDef eqDef a x      -- header: `!((*this
 def isZero (a : List Nat) : Bool := a.all (· == 0)
 
 /-- `operator/=` loop: `while (*this>=x) { ++result; *this -= x; }` with fuel (the termination theorem shows
-    `val a + 1` fuel always suffices when the divisor is non-zero) -/
+    any fuel above the quotient suffices when the divisor is non-zero; `div`/`mod` give it `val a / val x + 1`, so that the
+    model stops after quotient+1 rounds whatever the (regenerated) comparison `>=` answers) -/
 def divLoop : Nat → List Nat → List Nat → List Nat → List Nat × List Nat
   | 0, a, _, r => (r, a)
   | fuel+1, a, x, r => if ge a x then divLoop fuel (sub a x) x (incr r) else (r, a)
@@ -147,12 +148,12 @@ inductive Res where
 /-- `operator/=`: `if (x==0) DUNE_THROW(MathError)` -/
 def div (a x : List Nat) : Res :=
   if eq x (zeros x.length) then .mathError
-  else .ok (divLoop (val a + 1) a x (zeros a.length)).1
+  else .ok (divLoop (val a / val x + 1) a x (zeros a.length)).1
 
 /-- `operator%=` (after fix: the zero divisor is reported as in `/=`) -/
 def mod (a x : List Nat) : Res :=
   if eq x (zeros x.length) then .mathError
-  else .ok (divLoop (val a + 1) a x (zeros a.length)).2
+  else .ok (divLoop (val a / val x + 1) a x (zeros a.length)).2
 
 def band : List Nat → List Nat → List Nat
   | a :: as, x :: xs => (a &&& x) :: band as xs
